@@ -390,6 +390,31 @@ Fixpoint c03_obs (c : config) (prev : option osnap) (steps : list (bytes * eobs)
      | None => true
      end) && c03_obs c (eo_snap o) r
   end.
+(* K-C03-stale-readin (class 2): READIN survives a HALT; a resume whose code executes no INCMP and
+   runs out reports the input as invalid although it was never compared (agent routing) *)
+Definition starts_with_incmp (b : bytes) : bool := match decode_one b with Ok (IInCmp _ _, _) => true | _ => false end.
+Definition stale_readin_b (os : osnap) : bool :=
+  oflag os FLAG_WAIT && oflag os FLAG_READIN && negb (oflag os FLAG_TERMINATE) && negb (starts_with_incmp (os_code os)).
+Fixpoint no_incmp_before_halt (es : list ev) : bool :=
+  match es with
+  | [] => true
+  | EvInCmp _ _ _ :: _ => false
+  | EvInstr op :: r => if op =? op_HALT then true else no_incmp_before_halt r
+  | _ :: r => no_incmp_before_halt r
+  end.
+(* 0 ok, 2 K-C03-stale-readin, 3 other: an invalid-input answer for THIS input implies it was compared *)
+Definition c03_stale_step (prev : option osnap) (i : bytes) (o : eobs) (es : list ev) : N :=
+  if is_prefix (msg_invalid_input (Some i)) (eo_out o) && no_incmp_before_halt es then
+    match prev with Some os => if stale_readin_b os then 2 else 3 | None => 3 end
+  else 0.
+Fixpoint c03_stale_steps (prev : option osnap) (steps : list (bytes * eobs)) (evs : list (list ev)) : N :=
+  match steps, evs with
+  | (i, o) :: steps', es :: evs' =>
+    let k := match i with [] => 0 | _ => c03_stale_step prev i o es end in
+    if k =? 0 then c03_stale_steps (eo_snap o) steps' evs' else k
+  | _, _ => 0
+  end.
+
 Definition c03_class (ec : ecase) : option N :=
   let a := c03_steps (ec_long ec) (events_long ec) in
   let b := c03_steps (ec_pers ec) (events_pers ec) in
@@ -397,8 +422,13 @@ Definition c03_class (ec : ecase) : option N :=
              | Some _ => true
              | None => c03_obs (ec_cfg ec) None (ec_long ec) && c03_obs (ec_cfg ec) None (ec_pers ec)
              end in
-  if (a =? 2) || (b =? 2) || negb obs then Some 0
-  else if (a =? 1) || (b =? 1) then Some 1 else None.
+  let st := match c_first (ec_cfg ec) with
+            | Some _ => 0
+            | None => N.max (c03_stale_steps None (ec_long ec) (events_long ec)) (c03_stale_steps None (ec_pers ec) (events_pers ec))
+            end in
+  if (a =? 2) || (b =? 2) || negb obs || (st =? 3) then Some 0
+  else if (a =? 1) || (b =? 1) then Some 1
+  else if st =? 2 then Some 2 else None.
 Definition engine_violations_c03 (cs : list ecase) : list (N * N) := classify c03_class 0 cs.
 
 (* ---- C04 (engine level): the position after each request is the fold of the move table over
